@@ -1,34 +1,279 @@
-"""C16 — lock-free ring buffer (include/lockfree_ring_buffer.h)."""
+"""C16 — lock-free ring buffer (include/lockfree_ring_buffer.h).
+
+Script ops (harness/ring.c): p<v> trypush, o trypop, P<v> blocking push, O blocking pop,
+z size query.
+
+Blocking ops spin until they succeed, so a script must be deadlock-free under EVERY schedule.
+`deadlock_free` is a static sufficient condition (sound for the real code because every
+completed operation takes effect atomically at its CAS and a try-op may fail at any time):
+
+  * a run can only get stuck with every unfinished thread spinning in a blocking pop on an
+    EMPTY buffer, or every unfinished thread spinning in a blocking push on a FULL buffer
+    (capacity >= 2, so not both);
+  * for every "cut" that puts each thread either at its end or in front of one of its blocking
+    pops (at least one thread unfinished), the operations before the cut leave at least
+        #P - #O - #o >= 1   items (all try-pushes failing, all try-pops succeeding),
+    so some spinning pop can complete;
+  * for every cut that puts each thread at its end or in front of one of its blocking pushes,
+    the operations before the cut leave at most   #P + #p - #O < capacity   items (all
+    try-pushes succeeding, all try-pops failing), so some spinning push can complete.
+
+Both conditions are sums over threads, so the worst cut is found thread by thread.  The
+generator draws a script and demotes blocking ops (P -> p, O -> o) at the worst cut until the
+condition holds: scripts are deadlock-free by construction.  `_selftest()` cross-checks the
+condition against an exhaustive search of the API-level state space.
+"""
 from specs import sched_env, n_cases
+
+# ------------------------------------------------------------------ deadlock freedom
+
+
+def _cut_terms(ops, want):
+    """all (value_pop_cut, value_push_cut, position) for cuts of one thread in front of a
+    blocking op of kind `want`, plus the 'finished' cut (position None)"""
+    nP = nO = np_ = no = 0
+    out = []
+    for i, op in enumerate(ops):
+        k = op[0]
+        if k == want:
+            out.append((nP - nO - no, nP + np_ - nO, i))
+        if k == "P":
+            nP += 1
+        elif k == "O":
+            nO += 1
+        elif k == "p":
+            np_ += 1
+        elif k == "o":
+            no += 1
+    fin = (nP - nO - no, nP + np_ - nO, None)
+    return out, fin
+
+
+def worst_cut(threads, cap):
+    """None if the script is deadlock-free by the static condition, else (thread, position) of
+    a blocking op to demote"""
+    # stuck in pops: minimise the guaranteed number of items left
+    for want, idx, bad in (("O", 0, lambda tot: tot < 1), ("P", 1, lambda tot: tot >= cap)):
+        pick = min if want == "O" else max
+        best = []   # per thread: best choice overall, best unfinished choice
+        for ops in threads:
+            cuts, fin = _cut_terms(ops, want)
+            unf = pick(cuts, key=lambda c: c[idx]) if cuts else None
+            allc = pick(cuts + [fin], key=lambda c: c[idx])
+            best.append((allc, unf))
+        for t, (_, unf) in enumerate(best):
+            if unf is None:
+                continue
+            tot = unf[idx] + sum(b[0][idx] for u, b in enumerate(best) if u != t)
+            if bad(tot):
+                return (t, unf[2])
+    return None
+
+
+def make_deadlock_free(threads, cap):
+    threads = [list(ops) for ops in threads]
+    while True:
+        w = worst_cut(threads, cap)
+        if w is None:
+            return threads
+        t, i = w
+        op = threads[t][i]
+        threads[t][i] = ("p" + op[1:]) if op[0] == "P" else "o"
+
+
+def _bfs_deadlock(threads, cap):
+    """exhaustive API-level search (try-ops may fail at any time): can the script get stuck?"""
+    n = len(threads)
+    start = (tuple([0] * n), 0)
+    seen = {start}
+    todo = [start]
+    while todo:
+        pos, cnt = todo.pop()
+        succ = []
+        unfinished = 0
+        for t in range(n):
+            if pos[t] >= len(threads[t]):
+                continue
+            unfinished += 1
+            k = threads[t][pos[t]][0]
+            np_ = pos[:t] + (pos[t] + 1,) + pos[t + 1:]
+            if k == "P":
+                if cnt < cap:
+                    succ.append((np_, cnt + 1))
+            elif k == "O":
+                if cnt > 0:
+                    succ.append((np_, cnt - 1))
+            elif k == "p":
+                succ.append((np_, cnt))
+                if cnt < cap:
+                    succ.append((np_, cnt + 1))
+            elif k == "o":
+                succ.append((np_, cnt))
+                if cnt > 0:
+                    succ.append((np_, cnt - 1))
+            else:
+                succ.append((np_, cnt))
+        if unfinished and not succ:
+            return True
+        for s in succ:
+            if s not in seen:
+                seen.add(s)
+                todo.append(s)
+    return False
+
+
+def _selftest(n=3000, seed=7):
+    import random
+    rng = random.Random(seed)
+    kept = 0
+    for _ in range(n):
+        cap = rng.choice([2, 4])
+        threads = [[rng.choice(["P1", "O", "p1", "o", "z"]) for _ in range(rng.randrange(1, 6))]
+                   for _ in range(rng.choice([2, 3]))]
+        safe = make_deadlock_free(threads, cap)
+        assert worst_cut(safe, cap) is None
+        assert not _bfs_deadlock(safe, cap), (safe, cap)
+        kept += any(op[0] in "PO" for ops in safe for op in ops)
+    return kept, n
+
 
 # ------------------------------------------------------------------ C16 ring buffer
 
+def _blocking_script(rng, nt, cap, sizes, long_):
+    """op kinds for a script built around blocking ops: as many guaranteed pushes (P) as
+    blocking pops (O) or one more, few try ops (every `o` can steal an item a blocking pop
+    waits for, every `p` can take the room a blocking push waits for), spread over the threads
+    with a producer / consumer bias so that the blocking ops really wait for each other"""
+    n_o = rng.randrange(0, 5 if long_ else 4)
+    n_p = n_o + rng.choice([0, 0, 1]) if n_o else rng.randrange(1, cap + 1)
+    n_tp = rng.choice([0, 0, 1, 2])
+    n_to = rng.choice([0, 0, 0, 1])
+    n_z = rng.randrange(1, 4) if sizes else 0
+    bias = [rng.choice([0.15, 0.5, 0.85]) for _ in range(nt)]   # how much of a producer
+    threads = [[] for _ in range(nt)]
+    ops = ["P"] * n_p + ["O"] * n_o + ["p"] * n_tp + ["o"] * n_to + ["z"] * n_z
+    rng.shuffle(ops)
+    for op in ops:
+        if op == "z":
+            w = [1.0] * nt
+        elif op in "Pp":
+            w = bias
+        else:
+            w = [1.0 - b for b in bias]
+        t = rng.choices(range(nt), weights=w)[0]
+        threads[t].append(op)
+    return [ops for ops in threads if ops] or [["z"]]
+
+
 def gen_ring(rng, tier):
     cases = []
+    long_ = tier != "quick"
     for _ in range(n_cases(tier, 400, 6000)):
         k = rng.choice([1, 1, 2])
         nt = rng.choice([2, 2, 3, 4])
-        nxt = [1]
+        # ~58% of the scripts may contain blocking ops (many lose all of them to the
+        # deadlock rule: ~40% keep some), ~30% contain size queries, ~85% contain try ops
+        blocking = rng.random() < 0.58
+        sizes = rng.random() < 0.30
+        if sizes and rng.random() < 0.35:
+            # observer family: one thread only asks for the size, again and again, while 2-3
+            # workers push and pop; this is what it takes to see `size` read a `low` that has
+            # overtaken the `high` it read before (the clamp to 0), or a fill level changing
+            # between its two loads
+            kinds = [["z"] * rng.randrange(4, 9)]
+            for _ in range(rng.choice([2, 3, 3])):
+                ops = []
+                for _ in range(rng.randrange(1, 4)):
+                    blk = blocking and rng.random() < 0.5
+                    pair = ["P" if blk else "p", "O" if blk and rng.random() < 0.5 else "o"]
+                    ops += pair
+                kinds.append(ops)
+            rng.shuffle(kinds)
+        elif blocking and rng.random() < 0.75:
+            kinds = _blocking_script(rng, nt, 1 << k, sizes, long_)
+        else:
+            kinds = []
+            for t in range(nt):
+                ops = []
+                for _ in range(rng.randrange(2, 10 if long_ else 7)):
+                    if sizes and rng.random() < 0.2:
+                        ops.append("z")
+                        continue
+                    push = rng.random() < 0.5
+                    blk = blocking and rng.random() < 0.4
+                    ops.append(("P" if blk else "p") if push else ("O" if blk else "o"))
+                kinds.append(ops)
+        if blocking:
+            kinds = make_deadlock_free(kinds, 1 << k)
+        nxt = 1
         threads = []
-        for t in range(nt):
-            ops = []
-            for _ in range(rng.randrange(2, 7 if tier == "quick" else 10)):
-                if rng.random() < 0.5:
-                    ops.append("p%d" % nxt[0])
-                    nxt[0] += 1
+        for ops in kinds:
+            out = []
+            for op in ops:
+                if op[0] in "pP":
+                    out.append("%s%d" % (op[0], nxt))
+                    nxt += 1
                 else:
-                    ops.append("o")
-            threads.append(",".join(ops))
+                    out.append(op[0])
+            threads.append(",".join(out))
         cases.append({"args": [k, "|".join(threads)], "env": sched_env(rng)})
     return cases
+
+
+def post_ring(log_path, case):
+    """API-level oracle for `ret size n`, independent of the model: with
+         lo = #pushes that had returned 1 before `call size` - #pops that were called before
+              `ret size` and returned an item,
+         hi = #pushes that were called before `ret size` and returned 1 - #pops that had
+              returned an item before `call size`,
+       every correct implementation reports max(lo, 0) <= n <= min(hi, capacity)
+       (size reads `high`, then `low`; both only grow)."""
+    cap = 1 << int(case["args"][0])
+    notes = []
+    with open(log_path) as f:
+        for line in f:
+            p = line.split()
+            if len(p) >= 6 and p[3] == "note" and p[4] in ("call", "ret"):
+                notes.append((int(p[0]), p[4], p[5].lstrip("b") if p[5] in ("bpush", "bpop") else p[5],
+                              p[6:]))
+    # pair calls with returns per thread
+    ops = []     # [kind, call_pos, ret_pos, result]
+    open_ = {}
+    for pos, (t, cr, kind, rest) in enumerate(notes):
+        if cr == "call":
+            open_[t] = [kind, pos, None, None]
+            ops.append(open_[t])
+        elif t in open_ and open_[t][0] == kind:
+            open_[t][2] = pos
+            open_[t][3] = int(rest[0]) if rest else None
+            del open_[t]
+    for kind, c, r, n in ops:
+        if kind != "size" or r is None:
+            continue
+        ok_push_done = sum(1 for k2, c2, r2, x2 in ops if k2 == "push" and r2 is not None and r2 < c and x2)
+        ok_push_started = sum(1 for k2, c2, r2, x2 in ops if k2 == "push" and c2 < r and (r2 is None or x2))
+        ok_pop_done = sum(1 for k2, c2, r2, x2 in ops if k2 == "pop" and r2 is not None and r2 < c and x2)
+        ok_pop_started = sum(1 for k2, c2, r2, x2 in ops if k2 == "pop" and c2 < r and (r2 is None or x2))
+        lo = max(ok_push_done - ok_pop_started, 0)
+        hi = min(ok_push_started - ok_pop_done, cap)
+        if not (lo <= n <= hi):
+            return "size oracle: reported %d, every consistent value is in [%d, %d]" % (n, lo, hi)
+    return None
 
 
 SPEC = {
     "C16": {
         "extra_props": ("QueueHist",),
-        "parts": [{"name": "ring", "harness": "ring", "model": "Ring", "gen": gen_ring}],
-        "trusted_base": ["64-bit wrap-around of high/low not modelled (2^64 operations unreachable)"],
+        "parts": [{"name": "ring", "harness": "ring", "model": "Ring", "gen": gen_ring,
+                   "post": post_ring}],
+        "trusted_base": ["64-bit wrap-around of high/low not modelled (2^64 operations unreachable)",
+                         "loads of high/low are attributed to the wrappers (push, pop, size) or to "
+                         "trypush/trypop by the function name in the log line",
+                         "cpu_relax() of the wrappers is made visible by a harness-local macro "
+                         "(harness/ring.c), the primitive itself is unchanged"],
         "assumptions": ["values pushed are non-NULL (asserted by the C code)",
-                        "weak CAS does not fail spuriously on x86-64 (cmpxchg)"],
+                        "weak CAS does not fail spuriously on x86-64 (cmpxchg)",
+                        "callers of the blocking wrappers are deadlock-free (generated scripts are, "
+                        "by construction); termination of a blocking call is not a theorem"],
     },
 }
